@@ -217,6 +217,9 @@ def check(run, driver):
     for it in range(npoi):
         n = int(rng.integers(1, 8)); T = int(rng.integers(2, 30)); p = float(rng.choice([0.0, 1.0, rng.random()]))
         lam = float(rng.choice([0.0, 0.03, 0.05, 0.09, 2.0, rng.uniform(0, 5)])); c = float(rng.choice([0.0, 0.3, rng.uniform(0, 1.5)])); seed = int(rng.integers(0, 10**6)) if it % 7 else 0      # (seed 0 is a seed like any other)
+        if it % 10 == 5:       # a super-critical network (coupling * in-degree > 1): the rates grow geometrically to 1e8..1e11 -- large, and still inside what NumPy's sampler accepts
+            n = int(rng.integers(2, 5)); p = 1.0; lam = float(rng.choice([1.0, 2.0, 5.0])); g = float(rng.choice([2.0, 3.0])); c = g / (n - 1)
+            T = int(np.log(10.0 ** float(rng.uniform(8.5, 11))) / np.log(g))
         G = None
         if it % 3 == 1:
             G = nx.gnp_random_graph(n, 0.4, seed=seed, directed=True) if it % 2 else _odd_user_graph(n, rng)
@@ -224,7 +227,7 @@ def check(run, driver):
                 S.linear_stochastic_gaussian_process(0.5, n=n, T=3, seed=seed, G=G)   # the same graph object served another generator before
         # keep the rates representable: a super-critical network (coupling * in-degree > 1) grows geometrically and NumPy's sampler
         # rejects rates above ~9e18 -- a limit of the runtime, not of the generator under test
-        while (max(1.0, c * n) ** T) * (lam + 1.0) > 1e12:
+        while it % 10 != 5 and (max(1.0, c * n) ** T) * (lam + 1.0) > 1e12:       # (the super-critical cases above are sized exactly: growth factor g per step, g**T <= 1e11)
             c = c / 2
         cfg = dict(n=n, T=T, p=p, lambda_base=lam, coupling_strength=c, seed=seed)
         shim = NpShim()
